@@ -4,7 +4,7 @@
 // Spec functions (probeOK, celPass, ...) are declared in /verif/specs/probing.spec.
 package probing
 
-//@ props C17
+//@ props C03,C17
 //@ func package-operator.run/pkg/probing.(And).Probe
 //@   readonly
 //@   ensures success <==> (forall i int :: 0 <= i && i < len(p) ==> probeOK(p[i], objstate(obj)))
